@@ -1522,7 +1522,7 @@ func vfC16Property(t *testing.T, unit string) {
 	c.Floor("resp-max", 0.15)
 	c.Floor("front-on", 0.25)
 	c.Floor("mode-close-while-server-streams", 0.03)
-	c.Floor("data-request-first-on-new-connection-after-silent-idle-close", 0.05)
+	c.Floor("data-request-first-on-new-connection-after-silent-idle-close", 0.03)
 	c.Floor("close-during-download(>=20 data answers in a row, reader keeping up)/mode-close-while-server-streams", 0.5)
 	defer func() {
 		// Wait for the lingering watches; report what they found.
